@@ -88,11 +88,29 @@ package store
 //@   ghost readIndexOK = (result1 == nil ? readIndexOK + 1 : readIndexOK)
 //@   ghost lastReadIdx = (result1 == nil ? result : lastReadIdx)
 //@   modifies nothing
-//@ func github.com/feichai0017/NoKV/raftstore/peer::(*Peer).WaitApplied
+// WaitApplied's ghost clauses define the counters ReadCommand is specified with; its body
+// is verified: apart from the documented no-op cases (nil peer, no apply watermark, index
+// 0) nil is returned only after the apply watermark's WaitForMark(index) succeeded, i.e.
+// after every index up to `index` has FINISHED applying (DoneUntil), not merely begun.
+//@ ghost var markWaits Int
+//@ ghost var lastMarkIdx uint64
+//@ func github.com/feichai0017/NoKV/utils::(*WaterMark).WaitForMark
 //@   trusted
+//@   ghost markWaits = (result == nil ? markWaits + 1 : markWaits)
+//@   ghost lastMarkIdx = (result == nil ? index : lastMarkIdx)
+//@   modifies nothing
+//@ func github.com/feichai0017/NoKV/utils::(*WaterMark).LastIndex
+//@   trusted
+//@   modifies nothing
+//@ func github.com/feichai0017/NoKV/utils::(*WaterMark).DoneUntil
+//@   trusted
+//@   modifies nothing
+//@ func github.com/feichai0017/NoKV/raftstore/peer::(*Peer).WaitApplied
+//@   property C23
 //@   ghost waitOK = (result == nil ? waitOK + 1 : waitOK)
 //@   ghost lastWaitIdx = (result == nil ? index : lastWaitIdx)
-//@   modifies nothing
+//@   exit [nil-only-after-the-watermark-passed] result == nil && p != nil && p.applyMark != nil && index != 0 ==> markWaits == old(markWaits) + 1 && lastMarkIdx == index
+//@   modifies ghost(markWaits), ghost(lastMarkIdx)
 // The apply handler installed in Store.commandApplier: reads the state machine. The ghost
 // effect snapshots what had been established when it was invoked.
 //@ func field (Store).commandApplier
